@@ -199,7 +199,11 @@ def json_str_native(sx, p):
 
 # ---------------------------------------------------------------- xsi:nil / nullability
 NIL_GRID = [('nillable', Integer, True), ('Mandatory', M.Integer, False),
-            ('Unicode(nillable=False)', Unicode(nillable=False), False)]
+            ('Unicode(nillable=False)', Unicode(nillable=False), False),
+            # a declared default is what a nil element is replaced by - when nil is admissible at all
+            ("Integer(nillable=False, default=1)", Integer(nillable=False, default=1), False),
+            ("Unicode(nillable=False, default='7')", Unicode(nillable=False, default='7'), False),
+            ("Integer(default=3)", Integer(default=3), True)]
 
 
 @harness('C05', params=NIL_GRID, label=lambda p: p[0],
@@ -219,7 +223,9 @@ def xml_nil(sx, p):
     out = run_soft(lambda: XML.from_element(CTX, T, elt))
     sx.observe('accepted', out.accepted)
     if out.accepted:
-        want_val = sx.Or(sx.And(nil, out.value is None), sx.And(sx.Not(nil), out.value is not None))
+        default = T.Attributes.default
+        is_nil_value = out.value is None if default is None else sx.eq(out.value, default)
+        want_val = sx.Or(sx.And(nil, is_nil_value), sx.And(sx.Not(nil), sx.eq(out.value, '7' if issubclass(T, Unicode) else 7)))
         return sx.And(want_val, sx.Or(sx.Not(nil), nillable))
     return sx.And(nil, not nillable, is_client_validation_fault(out.fault))
 
